@@ -103,6 +103,15 @@ class SimLoop(asyncio.SelectorEventLoop):
     def now(self) -> float:
         return self._vt - T0
 
+    def stall(self, seconds: float):
+        """The callback that is running 'takes' this long: virtual time passes without the loop getting
+        control, as with a slow synchronous callback, a GC pause or blocking I/O on a real loop.  Every timer
+        that comes due meanwhile fires in the NEXT iteration, all in one batch, in the order of their deadlines
+        (e.g. a segment delivery due at D-1ms and a timeout due at D: delivery first, the timeout right behind it,
+        before any task woken by the delivery has run)."""
+        if seconds > 0:
+            self._vt += seconds
+
     def _run_once(self):
         self.iterations += 1
         if self.max_virtual is not None and self._vt - T0 > self.max_virtual:
